@@ -187,3 +187,6 @@ func VerifWireReliableReadMsgUDPOn(r *Reliable, buf []byte) (msg []byte, left in
 	n, _, _, _, err := r.ReadMsgUDP(buf, nil)
 	return buf[:n], VerifWireUnread(r), err
 }
+
+// VerifWireUnreliableQueued is the number of datagrams waiting in an unreliable tube's receive queue.
+func VerifWireUnreliableQueued(u *Unreliable) int { return len(u.recv.C) }
